@@ -129,6 +129,16 @@ def lake_build(targets, timeout=1500):
     return rc, out
 
 
+def leanchecker(modules, timeout=900):
+    os.makedirs(LOCKDIR, exist_ok=True)
+    with open(os.path.join(LOCKDIR, "lake.lock"), "w") as lk:
+        fcntl.flock(lk, fcntl.LOCK_EX)
+        try:
+            return sh(["lake", "env", "leanchecker"] + list(modules), cwd=LEAN, timeout=timeout)
+        finally:
+            fcntl.flock(lk, fcntl.LOCK_UN)
+
+
 def write_if_changed(path, text):
     try:
         with open(path) as f:
